@@ -37,6 +37,9 @@ Example exh_counts : node_count exh = 5 /\ term_count exh = 4 /\
   map (fun p : N * N => decode (snd p)) (s_terms exh) = [INum 4; INum 3; INum 0; INum 1].
 Proof. vm_compute. repeat split; reflexivity. Qed.
 
+Example exh_state : MtOK exh /\ node_count exh = 5 /\ term_count exh = 4.
+Proof. split; [exact exh_ok|]. destruct exh_counts as [A [B _]]. split; assumption. Qed.
+
 Example exh_refs : ref_ok exh ex_f /\ ref_ok exh ex_x0 /\ ref_ok exh ex_x1 /\ Cube exh ex_x1 [(1, true)].
 Proof.
   split; [vm_compute; eexists; reflexivity|]. split; [vm_compute; eexists; reflexivity|].
